@@ -250,6 +250,14 @@ func TestC20(t *testing.T) {
 					c.Engine = eng
 					// UseUnsafe() next to WithReuse: the reuse tensor stays the destination under every engine
 					c.AlsoUnsafe = c.Mode == "reuse" && rapid.IntRange(0, 2).Draw(rt, "alsounsafe") == 0
+					// the same vector in another form as the destination: whatever form the result keeps, the engines agree
+					if c.Dst != nil && nonUnit(c.A.Shape) == 1 && eqInts(c.Dst.Shape, c.A.Shape) && rapid.IntRange(0, 2).Draw(rt, "vecform") == 0 {
+						n := prod(c.A.Shape)
+						alt := rapid.SampledFrom([][]int{{n}, {n, 1}, {1, n}}).Draw(rt, "form")
+						if !eqInts(alt, c.A.Shape) {
+							c.Dst.Shape, c.Dst.L = alt, Layout{Root: "rm"}
+						}
+					}
 					return c
 				})
 			}
